@@ -24,7 +24,7 @@ REQUIRED_THEOREMS = ['CfVerif.C10.' + n for n in (
     'src_repaired', 'gen_retry_args', 'gen_patterns', 'gen_size_check', 'gen_check_for_answers',
     'retries_until_answered', 'retry_fires', 'retries_at_timeout', 'retries_at_t0_plus_kT', 'no_retry_after_answer',
     'longest_prefix_only', 'nothing_on_closed_link', 'no_cross_session_tx', 'reliable_link_no_retry',
-    'reliable_links_no_timers', 'driver_needs_resending', 'gen_link_read_once', 'live_no_retry_after_answer_counterexample',
+    'reliable_links_no_timers', 'driver_needs_resending', 'gen_link_read_once', 'gen_forget_order', 'gen_check_better', 'live_no_retry_after_answer_counterexample',
     'live_no_cross_session_tx_counterexample', 'live_retries_at_timeout_counterexample')]
 TRUSTED = ['harness/corr/c10.py: the path analysis of send_packet (conditions -> Boolean functions over six atoms), the extraction of '
            'close_link/_link_error_cb/open_link flags, and the correspondence harness',
@@ -255,6 +255,22 @@ def _cancel_clear(cls, fn):
     return cancels, clears
 
 
+def _forget_index(cls, fn):
+    """index of the top-level statement of `fn` that forgets the patterns (directly or through a helper method); None if none"""
+    for i, st in enumerate(fn.body):
+        tmp = ast.FunctionDef(name='_', args=fn.args, body=[st], decorator_list=[], lineno=0, col_offset=0)
+        if _cancel_clear(cls, tmp)[1]:
+            return i
+    return None
+
+
+def _first_index(fn, pred):
+    for i, st in enumerate(fn.body):
+        if any(pred(n) for n in ast.walk(st)):
+            return i
+    return None
+
+
 def _needs_resending_assigns(node):
     return [(n.lineno, _u(n.targets[0]), n.value) for n in ast.walk(node)
             if isinstance(n, ast.Assign) and len(n.targets) == 1 and _u(n.targets[0]).endswith('.needs_resending')]
@@ -390,12 +406,23 @@ def extract(ctx):
     texts = [_u(s) for s in er.body]
     X.expect('self.link = None' in texts and any(isinstance(s, ast.If) and [_u(b) for b in s.body] == ['self.link.close()'] for s in er.body),
              '_link_error_cb: closing the link / self.link = None not found')
+    def is_user_callback(n):
+        return isinstance(n, ast.Call) and isinstance(n.func, ast.Attribute) and n.func.attr == 'call'
+    ci, cc = _forget_index(cls, cl), _first_index(cl, is_user_callback)
+    g.raw('/-- the patterns are forgotten before the user callbacks run (a callback may open a new link) -/')
+    g.raw('def closeForgetsBeforeCallbacks : Bool := ' + _lbool(ci is not None and (cc is None or ci < cc)))
+    ei, ec = _forget_index(cls, er), _first_index(er, is_user_callback)
+    g.raw('def errorForgetsBeforeCallbacks : Bool := ' + _lbool(ei is not None and (ec is None or ei < ec)))
     g.raw('def errorCancels : Bool := ' + _lbool(e_cancel))
     g.raw('def errorClears : Bool := ' + _lbool(e_clear))
     op = X.find(cls, 'open_link')
     o_cancel, o_clear = _cancel_clear(cls, op)
     g.raw('def openCancels : Bool := ' + _lbool(o_cancel))
     g.raw('def openClears : Bool := ' + _lbool(o_clear))
+    oi = _forget_index(cls, op)
+    ol = _first_index(op, lambda n: isinstance(n, ast.Assign) and _u(n.targets[0]) == 'self.link')
+    g.raw('/-- the patterns are forgotten before the new link object is installed (and before set-up traffic is sent on it) -/')
+    g.raw('def openForgetsBeforeLink : Bool := ' + _lbool(oi is not None and ol is not None and oi < ol))
     X.expect(any(isinstance(n, ast.Assign) and _u(n.targets[0]) == 'self.link' and _u(n.value).startswith('cflib.crtp.get_link_driver(') for n in ast.walk(op)),
              'open_link: self.link = cflib.crtp.get_link_driver(...) not found')
 
